@@ -291,6 +291,15 @@ func (r *Report) Finish(repo string) int {
 	}
 
 	// evidence
+	if r.Assumptions == nil {
+		r.Assumptions = []string{"the Go type checker (go/types via go/packages) and go/cfg / go/ssa construction are correct"}
+	}
+	if r.Trusted == nil {
+		r.Trusted = []string{}
+	}
+	if r.NotCovered == nil {
+		r.NotCovered = []string{}
+	}
 	samples := r.samples()
 	var ruleTexts []string
 	for _, ri := range r.Rules {
